@@ -337,6 +337,8 @@ inductive Op where
 /-- What is appended to a connection's output buffer. -/
 inductive Event where
   | ack (a : Ack)
+  /-- confirmation with a nil name: argument-less (P)UNSUBSCRIBE by a client holding nothing of that kind -/
+  | ackNil (k : Kind) (count : Nat)
   | message (ch msg : Bytes)
   | pmessage (pat ch msg : Bytes)
   /-- integer reply to PUBLISH -/
@@ -364,8 +366,8 @@ def apply (st : State) : Op → State × List Ack
 
 def next (st : State) (op : Op) : State := (apply st op).1
 
-/-- (P)UNSUBSCRIBE by a connection without an entry: the code returns early and answers nothing
-    (the missing reply is the subject of C05; here it only means there is no count to check). -/
+/-- (P)UNSUBSCRIBE by a connection without an entry: `PubSubManager` returns early with no
+    `SubResult` at all (the server handler then writes the confirmations itself: `unsubEvents`). -/
 def silent (st : State) : Op → Bool
   | .unsubscribe c _ _ => (aget st.subs c).isNone
   | _ => false
@@ -376,18 +378,33 @@ def clientOp : Op → Bool
   | .subscribe _ _ xs => !xs.isEmpty
   | _ => true
 
+/-- What `handle_unsubscribe` / `handle_punsubscribe` (server.rs) write for the manager's `results`.
+    `idle = true` (the tree now): when the manager returned nothing — the client holds nothing to
+    unsubscribe from — one confirmation per name given, or a single one with a nil name, each with
+    `remaining` = `get_subscription_info(conn).map(channels + patterns).unwrap_or(0)`.
+    `idle = false` (the tree as pinned): nothing at all in that case. -/
+def unsubEvents (idle : Bool) (k : Kind) (xs : Option (List Bytes)) (results : List Ack) (remaining : Nat) : List Event :=
+  if results.isEmpty && idle then
+    match xs with
+    | some l => l.map fun n => .ack ⟨k, true, n, remaining, false⟩
+    | none => [.ackNil k remaining]
+  else results.map .ack
+
 /-- Everything the operation appends to output buffers, in order. -/
-def emit (dedup : Bool) (st : State) (op : Op) : List (ConnId × Event) :=
+def emit (dedup idle : Bool) (st : State) (op : Op) : List (ConnId × Event) :=
   match op with
-  | .subscribe c _ _ | .unsubscribe c _ _ => (apply st op).2.map (fun a => (c, .ack a))
+  | .subscribe c _ _ => (apply st op).2.map (fun a => (c, .ack a))
+  | .unsubscribe c k xs =>
+    let r := apply st op
+    (unsubEvents idle k xs r.2 ((aget r.1.subs c).getD ([], [])).total).map (fun e => (c, e))
   | .disconnect _ => []
   | .publish c ch msg => pubEvents c ch msg (publish dedup st ch)
 
 def after (st : State) (ops : List Op) : State := ops.foldl next st
 
-def log (dedup : Bool) : State → List Op → List (ConnId × Event)
+def log (dedup idle : Bool) : State → List Op → List (ConnId × Event)
   | _, [] => []
-  | st, op :: ops => emit dedup st op ++ log dedup (next st op) ops
+  | st, op :: ops => emit dedup idle st op ++ log dedup idle (next st op) ops
 
 end Code
 
@@ -401,9 +418,18 @@ def apply (s : State) : Op → State × List Ack
 
 def next (s : State) (op : Op) : State := (apply s op).1
 
+/-- The confirmations (P)UNSUBSCRIBE is due: one per name given, each with the number of
+    subscriptions the client holds after that name; without names one per subscription of that
+    kind held — or, when none is held, a single confirmation with a nil name and the count. -/
+def unsubEvents (k : Kind) (c : ConnId) (s : State) (xs : Option (List Bytes)) : List Event :=
+  match xs with
+  | some _ => (unsubscribe k c s xs).2.map .ack
+  | none => if heldBy s c k = [] then [.ackNil k (count s c)] else (unsubscribe k c s xs).2.map .ack
+
 def emit (s : State) (op : Op) : List (ConnId × Event) :=
   match op with
-  | .subscribe c _ _ | .unsubscribe c _ _ => (apply s op).2.map (fun a => (c, .ack a))
+  | .subscribe c _ _ => (apply s op).2.map (fun a => (c, .ack a))
+  | .unsubscribe c k xs => (unsubEvents k c s xs).map (fun e => (c, e))
   | .disconnect _ => []
   | .publish c ch msg => pubEvents c ch msg (deliveries s ch)
 
